@@ -188,7 +188,10 @@ def main():
             try:
                 r = plugin.replay(ctx, {"input": ri, "sig": [cid, "regression-corpus"]})
             except Exception as e:
-                r = {"what": f"replay raised {type(e).__name__}: {e}", "sig": [cid, "regression-corpus", "raise"], "input": ri}
+                # a stored input this plugin's replay cannot read is a harness matter, not a verdict about /repo
+                rep.setdefault("stats", {}).setdefault("regression_corpus_replay_errors", []).append(
+                    f"{os.path.basename(os.path.dirname(mp))}: {type(e).__name__}: {str(e)[:80]}")
+                r = None
             if r:
                 r = dict(r)
                 r["what"] = f"[regression corpus {os.path.basename(os.path.dirname(mp))}] {r.get('what')}"
